@@ -29,6 +29,15 @@ Write == /\ Len(hin) < MaxObj
               /\ act' = [op |-> "write", arg |-> o]
          /\ UNCHANGED <<hout, ret>>
 
+(* "nullptr can be pushed" (ObjectQueue.h): a null entry is an entry like any other - it is counted, delivered in
+   order (as a null result with the stream still good) and does not end the stream *)
+WriteNull == /\ Len(hin) < MaxObj
+             /\ OQWritePred(oq)
+             /\ oq' = OQWrite(oq, 0)
+             /\ hin' = Append(hin, 0)
+             /\ act' = [op |-> "write", arg |-> 0]
+             /\ UNCHANGED <<hout, ret>>
+
 Read == /\ OQReadPred(oq)
         /\ oq' = OQRead(oq)
         /\ ret' = OQReadRet(oq)
@@ -45,7 +54,7 @@ Abort == /\ oq' = OQAbort(oq)
          /\ act' = [op |-> "abort", arg |-> 0]
          /\ UNCHANGED <<hin, hout, ret>>
 
-Next == Write \/ Read \/ SetEnd \/ Abort
+Next == Write \/ WriteNull \/ Read \/ SetEnd \/ Abort
 Spec == Init /\ [][Next]_vars
 
 (***************************************************************************)
@@ -55,9 +64,11 @@ FifoExactlyOnce == /\ IsPrefix(hout, hin)
                    /\ hin = hout \o oq.q
 Counters == oq.g = Len(hout) /\ oq.p = Len(hin) /\ oq.g <= oq.p
 CapacityRespected == ~oq.abort => Len(oq.q) <= oq.cap
-EofFlag == (ret = 0) <=> (oq.rd = "eof")
+(* eof|fail is set by exactly those reads that find the queue empty (a queued null entry is not the end) *)
+EofFlag == oq.rd = "eof" => ret = 0
+EofIffEmpty == [][ act'.op = "read" => ((oq'.rd = "eof") <=> (oq.q = <<>>)) ]_vars
 (* a null result only when nothing is queued and (declared size consumed or abort) *)
-EofExact == [][ (act'.op = "read" /\ ret' = 0)
+EofExact == [][ (act'.op = "read" /\ oq'.rd = "eof")
                   => (oq.q = <<>> /\ (oq.g >= oq.end \/ oq.abort)) ]_vars
 (* objects remain => read returns the oldest one, never null *)
 NeverNullWhileQueued == [][ (act'.op = "read" /\ oq.q # <<>>) => ret' = Head(oq.q) ]_vars
